@@ -102,26 +102,79 @@ def evOK : Ev → Bool
   | .crossed _ _ p b m => decide (b + m ≤ p)
   | _ => true
 
-/-- `t`'s log is `s`'s log plus sound events -/
-def LogExt (s t : State) : Prop := ∃ l, t.log = l ++ s.log ∧ ∀ e ∈ l, evOK e = true
+/-- the actor of a successful `tryPassivation` event -/
+def triedOk : Ev → Option Nat
+  | .tried a _ true _ _ _ _ _ _ _ _ _ _ => some a
+  | _ => none
 
-theorem LogExt.refl (s : State) : LogExt s s := ⟨[], rfl, by simp⟩
+/-- does the list start with a `postStop` event of actor `a` -/
+def stopOnTop (a : Nat) : List Ev → Bool
+  | .postStop b _ :: _ => a == b
+  | _ => false
+
+/-- a successful `tryPassivation` is logged directly on top of the `postStop` event of the stop it
+    performed (the log is newest first) -/
+def adjOK : List Ev → Bool
+  | [] => true
+  | e :: rest => (match triedOk e with
+      | some a => stopOnTop a rest
+      | none => true) && adjOK rest
+
+/-- what a chunk of freshly logged events certifies -/
+def Good (l : List Ev) : Prop := (∀ e ∈ l, evOK e = true) ∧ adjOK l = true
+
+theorem stopOnTop_append (a : Nat) (l l1 : List Ev) (h : stopOnTop a l = true) : stopOnTop a (l ++ l1) = true := by
+  cases l with
+  | nil => cases h
+  | cons e rest => cases e <;> first | exact h | cases h
+
+theorem adjOK_append (l2 l1 : List Ev) (h2 : adjOK l2 = true) (h1 : adjOK l1 = true) : adjOK (l2 ++ l1) = true := by
+  induction l2 with
+  | nil => simpa using h1
+  | cons e rest ih =>
+    simp only [adjOK, Bool.and_eq_true, List.cons_append] at h2 ⊢
+    refine ⟨?_, ih h2.2⟩
+    cases ht : triedOk e with
+    | none => rfl
+    | some a =>
+      have := h2.1
+      rw [ht] at this
+      exact stopOnTop_append a rest l1 this
+
+/-- `t`'s log is `s`'s log plus a good chunk of events -/
+def LogExt (s t : State) : Prop := ∃ l, t.log = l ++ s.log ∧ Good l
+
+theorem LogExt.refl (s : State) : LogExt s s := ⟨[], rfl, by simp [Good, adjOK]⟩
 
 theorem LogExt.trans {s t u : State} (h1 : LogExt s t) (h2 : LogExt t u) : LogExt s u := by
-  obtain ⟨l1, e1, p1⟩ := h1
-  obtain ⟨l2, e2, p2⟩ := h2
-  refine ⟨l2 ++ l1, by rw [e2, e1, List.append_assoc], ?_⟩
+  obtain ⟨l1, e1, p1, q1⟩ := h1
+  obtain ⟨l2, e2, p2, q2⟩ := h2
+  refine ⟨l2 ++ l1, by rw [e2, e1, List.append_assoc], ?_, adjOK_append l2 l1 q2 q1⟩
   intro e he
   rcases List.mem_append.mp he with h | h
   · exact p2 e h
   · exact p1 e h
 
-theorem LogExt.of_log_eq {s t : State} (h : t.log = s.log) : LogExt s t := ⟨[], by simpa using h, by simp⟩
+theorem LogExt.of_log_eq {s t : State} (h : t.log = s.log) : LogExt s t := ⟨[], by simpa using h, by simp [Good, adjOK]⟩
 
 theorem SameCore.logExt {s t : State} (h : SameCore s t) : LogExt s t := LogExt.of_log_eq h.log
 
-theorem logExt_emit (s : State) (e : Ev) (h : evOK e = true) : LogExt s (s.emit e) :=
-  ⟨[e], rfl, by simpa using h⟩
+/-- a single event that is not a successful attempt -/
+def plain : Ev → Bool
+  | .tried _ _ true _ _ _ _ _ _ _ _ _ _ => false
+  | _ => true
+
+theorem adjOK_single (e : Ev) (h : plain e = true) : adjOK [e] = true := by
+  have : triedOk e = none := by
+    cases e <;> first | rfl | skip
+    case tried a src ok ll ss sk st su pf rn now latest pr =>
+      cases ok
+      · rfl
+      · cases h
+  simp [adjOK, this]
+
+theorem logExt_emit (s : State) (e : Ev) (h : evOK e = true) (hp : plain e = true := by rfl) : LogExt s (s.emit e) :=
+  ⟨[e], rfl, by simpa using h, adjOK_single e hp⟩
 
 theorem logExt_setA (s : State) (a : Nat) (f : Actor → Actor) : LogExt s (s.setA a f) := LogExt.of_log_eq rfl
 theorem logExt_setE (s : State) (g : Nat) (f : Entry → Entry) : LogExt s (s.setE g f) := LogExt.of_log_eq rfl
@@ -216,18 +269,29 @@ theorem logExt_doStopS (s : State) (a : Nat) : LogExt s (s.doStopS a) :=
 
 theorem evOK_tried_false (s : State) (a : Nat) (src : Src) : evOK (s.triedEv a src false) = true := rfl
 
+theorem adjOK_pair (a : Nat) (src : Src) (ok ll ss sk st su pf rn : Bool) (now : Nat) (latest : Option Nat) (pr : Int)
+    (w : Bool) : adjOK [Ev.tried a src ok ll ss sk st su pf rn now latest pr, .postStop a w] = true := by
+  cases ok <;> simp [adjOK, triedOk, stopOnTop]
+
 theorem logExt_tryS (s : State) (a : Nat) (src : Src) : LogExt s (s.tryS a src) := by
   unfold tryS
   dsimp only
   split
   · split
-    · exact (logExt_setA _ _ _).trans (logExt_emit _ _ rfl)
-    · exact logExt_emit _ _ rfl
+    · exact (logExt_setA _ _ _).trans (logExt_emit _ _ rfl rfl)
+    · exact logExt_emit _ _ rfl rfl
   · rename_i h
-    refine ((logExt_unregister _ _).trans (logExt_doStopS _ _)).trans (logExt_emit _ _ ?_)
-    simp only [tryBlocked, Bool.or_eq_true, not_or, Bool.not_eq_true] at h
-    simp only [triedEv, evOK, h]
-    simp
+    refine (logExt_unregister s a).trans ?_
+    -- the stop and the attempt's event are logged together
+    refine ⟨[s.triedEv a src (s.tryB a), .postStop a ((s.unregister a).actors a).running], rfl, ?_, ?_⟩
+    · intro e he
+      simp only [List.mem_cons, List.not_mem_nil, or_false] at he
+      rcases he with rfl | rfl
+      · simp only [tryBlocked, Bool.or_eq_true, not_or, Bool.not_eq_true] at h
+        simp only [triedEv, evOK, h]
+        simp
+      · rfl
+    · exact adjOK_pair _ _ _ _ _ _ _ _ _ _ _ _ _ _
 
 theorem logExt_shutdown (s : State) (a : Nat) : LogExt s (s.shutdown a) := by
   unfold shutdown
@@ -398,14 +462,36 @@ theorem logExt_spawnAll (s : State) (cfg : List (Strat × Bool)) : LogExt s (spa
     refine LogExt.trans ?_ (logExt_startPassivation _ _)
     exact LogExt.of_log_eq rfl
 
-/-- every event logged by any run from any initial configuration is locally sound -/
-theorem log_sound (cfg : List (Strat × Bool)) (ops : List Op) :
-    ∀ e ∈ (run (init cfg) ops).log, evOK e = true := by
+theorem log_good (cfg : List (Strat × Bool)) (ops : List Op) : Good (run (init cfg) ops).log := by
   have h : LogExt ({} : State) (run (init cfg) ops) := (logExt_spawnAll _ _).trans (logExt_run _ _)
   obtain ⟨l, hl, hp⟩ := h
-  intro e he
-  rw [hl] at he
-  simp only [List.append_nil] at he
-  exact hp e he
+  rw [hl]
+  simpa using hp
+
+/-- every event logged by any run from any initial configuration is locally sound -/
+theorem log_sound (cfg : List (Strat × Bool)) (ops : List Op) :
+    ∀ e ∈ (run (init cfg) ops).log, evOK e = true := (log_good cfg ops).1
+
+/-- a successful attempt sits directly on top of the PostStop it caused -/
+theorem adjOK_mem (l : List Ev) (h : adjOK l = true) (a : Nat) (src : Src) (ll ss sk st su pf rn : Bool) (now : Nat)
+    (latest : Option Nat) (pr : Int) (hm : Ev.tried a src true ll ss sk st su pf rn now latest pr ∈ l) :
+    ∃ w, Ev.postStop a w ∈ l := by
+  induction l with
+  | nil => cases hm
+  | cons e rest ih =>
+    simp only [adjOK, Bool.and_eq_true] at h
+    rcases List.mem_cons.mp hm with heq | hin
+    · subst heq
+      have h1 := h.1
+      simp only [triedOk] at h1
+      cases rest with
+      | nil => cases h1
+      | cons e2 rest2 =>
+        cases e2 <;> first | cases h1 | skip
+        case postStop b w =>
+          simp only [stopOnTop, beq_iff_eq] at h1
+          exact ⟨w, by rw [h1]; simp⟩
+    · obtain ⟨w, hw⟩ := ih h.2 hin
+      exact ⟨w, List.mem_cons_of_mem _ hw⟩
 
 end GoaktVerif.C12
